@@ -159,3 +159,136 @@ def _run_contract(kind):
 
 _run_contract('sensitivity')
 _run_contract('monte_carlo')
+
+
+# ---- bounded: runs with a compensator (real SciPy), every recorded row reproduced on a fresh copy of the nominal lens ----------------
+def _compensated(ct, tier, seed):
+    """a sensitivity sweep and a Monte-Carlo run with a compensator: the operand and compensator values recorded for each trial
+    equal those obtained by applying the recorded perturbation value to a *fresh* nominal lens followed by the same compensation
+    -- in particular they do not depend on which trials came before (several orders of the same perturbations are run)"""
+    import random
+    import time
+    import warnings
+    import numpy as np
+    from optiland.optic import Optic
+    from optiland.materials import IdealMaterial
+    from optiland.tolerancing.core import Tolerancing
+    from optiland.tolerancing.perturbation import RangeSampler, ScalarSampler
+    from optiland.tolerancing.sensitivity_analysis import SensitivityAnalysis
+    from optiland.tolerancing.monte_carlo import MonteCarlo
+    warnings.simplefilter('ignore')
+    np.seterr(all='ignore')
+    t0 = time.time()
+    rng = random.Random(seed * 43 + 9)
+    clauses, fails, cases = {}, [], 0
+
+    def note(cid, ok, detail, inputs):
+        c_ = clauses.setdefault(cid, {'paths': 0, 'proved': 0, 'backends': {}, 'failed': [], 'seconds': 0.0, 'bounded': True})
+        c_['paths'] += 1
+        if ok:
+            c_['proved'] += 1
+            c_['backends']['runtime'] = c_['backends'].get('runtime', 0) + 1
+        else:
+            fails.append({'clause': cid, 'draws': inputs, 'note': detail})
+
+    def build(par):
+        L = Optic()
+        L.add_surface(index=0, thickness=np.inf)
+        L.add_surface(index=1, radius=par['R1'], thickness=par['t1'], material=IdealMaterial(par['n']), is_stop=True)
+        L.add_surface(index=2, radius=-par['R2'], thickness=par['bfl'])
+        L.add_surface(index=3)
+        L.set_aperture('EPD', par['epd'])
+        L.set_field_type('angle')
+        L.add_field(y=0.0)
+        L.add_field(y=3.0)
+        L.add_wavelength(0.55, is_primary=True)
+        return L
+
+    def tol_for(L):
+        T = Tolerancing(L, method='generic', tol=1e-5)
+        for Hy in (0.0, 1.0):
+            T.add_operand('rms_spot_size', {'optic': L, 'surface_number': -1, 'Hx': 0.0, 'Hy': Hy, 'num_rays': 3, 'wavelength': 0.55,
+                                            'distribution': 'hexapolar'})            # target = the nominal value (the documented default)
+        T.add_compensator('thickness', surface_number=2)
+        return T
+    PERT = {'decenter': dict(variable_type='decenter', surface_number=1, axis='y'), 'radius': dict(variable_type='radius', surface_number=1),
+            'thickness': dict(variable_type='thickness', surface_number=1)}
+    for trial in range(1 if tier == 'quick' else 4):
+        par = {'R1': rng.uniform(40, 70), 'R2': rng.uniform(40, 70), 't1': rng.uniform(3, 6), 'n': rng.uniform(1.5, 1.7), 'epd': rng.uniform(8, 12)}
+        par['bfl'] = 0.9 * (1.0 / ((par['n'] - 1) * (1 / par['R1'] + 1 / par['R2'])))          # near (not at) the paraxial focus
+        ranges = {'decenter': (-0.002, 0.002), 'radius': (par['R1'] - 2.0, par['R1'] + 2.0), 'thickness': (par['t1'] - 0.5, par['t1'] + 0.5)}
+        orders = [('decenter', 'radius', 'thickness'), ('radius', 'thickness', 'decenter')] if tier == 'quick' else \
+            [('decenter', 'radius', 'thickness'), ('radius', 'thickness', 'decenter'), ('thickness', 'decenter', 'radius')]
+        for order in orders:
+            L = build(par)
+            T = tol_for(L)
+            for nm in order:
+                kw = dict(PERT[nm])
+                T.add_perturbation(kw.pop('variable_type'), RangeSampler(ranges[nm][0], ranges[nm][1], 2), **kw)
+            A = SensitivityAnalysis(T)
+            try:
+                A.run()
+            except Exception as ex:
+                note('C15.runtime.compensated_run_completes', False, '%s: %s' % (type(ex).__name__, ex), {'order': order, 'lens': par})
+                continue
+            df = A.get_results()
+            names = A.operand_names
+            comp_cols = [c_ for c_ in df.columns if str(c_).startswith('C0:')]
+            row = 0
+            for nm in order:
+                for _ in range(2):
+                    r = df.iloc[row]
+                    row += 1
+                    # fresh nominal lens, the recorded perturbation value, the same compensation
+                    L2 = build(par)
+                    T2 = tol_for(L2)
+                    kw = dict(PERT[nm])
+                    T2.add_perturbation(kw.pop('variable_type'), ScalarSampler(float(r['perturbation_value'])), **kw)
+                    T2.perturbations[0].apply()
+                    comp = T2.apply_compensators()
+                    vals = T2.evaluate()
+                    inputs = {'lens': par, 'order': list(order), 'perturbation': nm, 'value': float(r['perturbation_value'])}
+                    cases += 1
+                    got = [float(r[n_]) for n_ in names]
+                    note('C15.runtime.compensated_row_equals_fresh_lens_with_same_perturbation_and_compensation',
+                         bool(np.allclose(got, [float(v_) for v_ in vals], rtol=1e-6, atol=1e-9)), '%s vs fresh %s' % (got, [float(v_) for v_ in vals]), inputs)
+                    if comp_cols:
+                        note('C15.runtime.recorded_compensator_value_equals_fresh_compensation',
+                             bool(np.allclose(float(r[comp_cols[0]]), float(list(comp.values())[0]), rtol=1e-6, atol=1e-9)),
+                             '%s vs fresh %s' % (float(r[comp_cols[0]]), list(comp.values())[0]), inputs)
+            back = build(par)
+            note('C15.runtime.nominal_restored_after_compensated_run', bool(np.allclose(L.surface_group.positions, back.surface_group.positions, rtol=0, atol=1e-12))
+                 and bool(np.allclose(L.surface_group.radii, back.surface_group.radii, rtol=0, atol=1e-12, equal_nan=True)), '', {'lens': par, 'order': list(order)})
+        # Monte Carlo with the compensator: reproducible row by row on a fresh lens
+        L = build(par)
+        T = tol_for(L)
+        T.add_perturbation('radius', RangeSampler(par['R1'] - 1.0, par['R1'] + 1.0, 3), surface_number=1)
+        M = MonteCarlo(T)
+        try:
+            M.run(3)
+            df = M.get_results()
+            names = M.operand_names
+            for i in range(3):
+                r = df.iloc[i]
+                pcol = [c_ for c_ in df.columns if 'Radius' in str(c_) or 'radius' in str(c_)]
+                if not pcol:
+                    break
+                L2 = build(par)
+                T2 = tol_for(L2)
+                T2.add_perturbation('radius', ScalarSampler(float(r[pcol[0]])), surface_number=1)
+                T2.perturbations[0].apply()
+                T2.apply_compensators()
+                vals = [float(v_) for v_ in T2.evaluate()]
+                cases += 1
+                note('C15.runtime.compensated_row_equals_fresh_lens_with_same_perturbation_and_compensation',
+                     bool(np.allclose([float(r[n_]) for n_ in names], vals, rtol=1e-6, atol=1e-9)), 'monte carlo row %d' % i, {'lens': par, 'row': i})
+        except Exception as ex:
+            note('C15.runtime.compensated_run_completes', False, 'MonteCarlo: %s: %s' % (type(ex).__name__, ex), {'lens': par})
+    return {'contract': ct.name, 'functions': ct.functions, 'props': ct.props,
+            'symbolic': {'clauses': clauses, 'paths': 0, 'errors': [], 'solver_s': 0.0, 'samples': [], 'wd_assumed': [], 'assumed': []},
+            'numeric': {'accepted': cases, 'rejected': 0, 'failures': fails[:10], 'concolic_agree': 0, 'encoder_mismatches': [],
+                        'samples': [{'orders': 'decenter/radius/thickness permutations'}]}, 'wall_s': time.time() - t0}
+
+
+contract('C15.runtime.compensated', [TS + ':SensitivityAnalysis.run', TM + ':MonteCarlo.run', TC + ':Tolerancing.apply_compensators',
+                                     'optiland/tolerancing/compensator.py:CompensatorOptimizer.run'], ['C15'], custom=_compensated)(lambda c: None)
